@@ -441,7 +441,9 @@ func TestTxShortStringsExhaustive(t *testing.T) {
 	rec(nil)
 	evid.R.Count(n, "tx_short_exhaustive")
 	evid.R.Label("tx_short_exhaustive:accepted", acc)
-	evid.R.Note("tx short strings: all %d byte strings of length <= %d (shard %d/%d) through DecodeStrict/NewTransaction; %d accepted", n, maxLen, shard, shards, acc)
+	if acc > 0 || shard == 0 {
+		evid.R.Note("tx short strings: every byte string of length <= %d through DecodeStrict/NewTransaction, split over %d shard(s) by first byte (%d strings in shard %d, %d accepted)", maxLen, shards, n, shard, acc)
+	}
 }
 
 func windowBases() [][]byte {
@@ -572,7 +574,9 @@ func FuzzTxStrict(f *testing.F) {
 	for _, s := range seeds {
 		f.Add(s)
 	}
-	evid.R.Label("tx_fuzz_seed_corpus", int64(len(seeds)))
+	if shard, _ := shardInfo(); shard == 0 {
+		evid.R.Label("tx_fuzz_seed_corpus", int64(len(seeds)))
+	}
 	f.Fuzz(func(t *testing.T, s []byte) {
 		accepted, problem := txImplication(s)
 		l := "tx_fuzz:rejected"
